@@ -179,6 +179,9 @@ pub struct ExecPlan {
     /// fault: the traffic pauses before dispatcher 0's frame `.0` for `.1` simulated ns: the dispatcher waits for
     /// the queues to drain, the simulated clock moves, and every worker's pending receive times out
     pub idle_gap: Option<(usize, u64)>,
+    /// via_analyzer only (HTTP): after the capture was handed to the pool, the application - which holds a handle
+    /// to the pool for its statistics - initialises a new pool for the next capture on the same analyzer
+    pub reinit_pool: bool,
 }
 
 /// The body of one scheduled execution.
@@ -325,11 +328,22 @@ pub fn exec_via_analyzer(plan: &ExecPlan) -> Result<ExecOut, String> {
                 a = a.with_filter(sut::filter_http(f));
             }
             a.init_pool(tx.clone()).map_err(|e| format!("{}", e))?;
+            let monitor = if plan.reinit_pool { a.worker_pool().cloned() } else { None };
             let mut it = frames.into_iter();
             a.verif_process_with(move || it.next().map(Ok), tx, None).map_err(|e| format!("{}", e))?;
             if let Some(s) = a.stats() {
                 out.stats_after = StatsSnap { dispatched: s.total_dispatched, dropped: s.total_dropped, workers: s.workers.iter().map(|w| (w.queue_size, w.dropped)).collect() };
             }
+            if plan.reinit_pool {
+                // the next capture gets a pool and a result channel of its own; what the first pool still has queued
+                // must nevertheless be analysed (the monitor keeps that pool alive)
+                let (tx2, _rx2) = mpsc::channel();
+                a.init_pool(tx2).map_err(|e| format!("{}", e))?;
+                for _ in 0..50 {
+                    shuttle::thread::sleep(std::time::Duration::from_millis(0));
+                }
+            }
+            drop(monitor);
             drop(a);
             while let Ok(r) = rx.recv() {
                 out.results.push(sut::obs_http(&r));
